@@ -1,6 +1,5 @@
 (* C04/NetProofs.v — inet/cidr and interval. *)
 Require Import PG.Base.Bytes PG.Base.GoSlice PG.Base.Value PG.C04.Lib PG.C04.Model PG.C04.Spec PG.C04.LibProofs.
-Set Default Timeout 60.
 
 Ltac rdc i x := rewrite (read_idx _ i x); [cbn [bind] | lia | try reflexivity].
 
